@@ -83,6 +83,16 @@ def check(topo, eqpt, key, junction):
                 sl = span_loss(net, n, eqpt)
                 if sl < span.padding - 1e-9:
                     prob.append(f'{n.uid}: span loss {sl:.3f} below padding {span.padding}')
+            if isinstance(nxt, (Edfa, Multiband_amplifier)):
+                # the same claim with the span walked here: every fibre and fused element back to the previous amplifier / ROADM
+                chain, cur = [], n
+                while isinstance(cur, (Fiber, Fused)):
+                    chain.append(cur)
+                    cur = next(net.predecessors(cur))
+                if isinstance(cur, (Edfa, Multiband_amplifier)) and not any(isinstance(x, RamanFiber) for x in chain):
+                    own = sum(float(x.loss) for x in chain)
+                    if own < span.padding - 1e-9:
+                        prob.append(f'span {[x.uid for x in reversed(chain)]} between two amplifiers: loss {own:.3f} dB below the padding {span.padding} dB')
         if isinstance(n, Roadm):
             pass
     for r in (n for n in net.nodes() if isinstance(n, Roadm)):
@@ -126,8 +136,9 @@ def check(topo, eqpt, key, junction):
         wit.append({'key': key, 'problems': prob[:6]})
 
 
-span_sets = [[80], [20, 80], [0.001, 160], [1200], [130], [75]] if a.tier == 'quick' else \
-    [[80], [20, 80], [0.001, 160], [1200], [130], [75], [40, 40, 40], [160, 0.001], [5]]
+# ([10, 12] and [8, 6, 9]: spliced short fibres, a span that needs padding as a whole)
+span_sets = [[80], [20, 80], [0.001, 160], [1200], [130], [75], [10, 12], [8, 6, 9]] if a.tier == 'quick' else \
+    [[80], [20, 80], [0.001, 160], [1200], [130], [75], [10, 12], [8, 6, 9], [40, 40, 40], [160, 0.001], [5]]
 names = ['line2', 'ring3', 'star4', 'mesh4'] if a.tier == 'quick' else list(TOPOLOGIES)
 for name in names:
     sites, links = TOPOLOGIES[name]
@@ -245,6 +256,26 @@ for name in (['line2', 'ring3'] if a.tier == 'quick' else ['line2', 'line3', 'ri
                 wit.append({'key': key, 'problems': prob[:5]})
         except Exception as e:
             wit.append({'key': key, 'problems': [f'{type(e).__name__}: {e}'[:300]]})
+    # the same ROADMs with an operator-placed single-band in-line amplifier on every line: those lines stay single-band lines
+    cases += 1
+    key = f'{name}:[40, 60]:multiband ROADMs, single-band in-line amplifier given'
+    try:
+        eq = equipment('eqpt_config_multiband.json')
+        topo = mesh(sites, links, spans={l: [40, 60] for l in links}, junction='edfa', amp_variety='std_medium_gain',
+                    roadm_params={x: {'design_bands': CL} for x in sites})
+        net, eq = design(topo, eq)
+        prob = []
+        for n in net.nodes():
+            if isinstance(n, Multiband_amplifier):
+                prob.append(f'{n.uid}: multi-band amplifier on a line whose in-line amplifier is a single-band one')
+            if isinstance(n, Edfa) and (n.params.type_variety not in eq['Edfa'] or n.effective_gain is None or n.delta_p is None):
+                prob.append(f'{n.uid}: incomplete amplifier')
+            if isinstance(n, Fiber) and isinstance(next(net.successors(n)), (Fiber, Roadm)):
+                prob.append(f'{n.uid}: followed by {type(next(net.successors(n))).__name__} without amplifier')
+        if prob:
+            wit.append({'key': key, 'problems': prob[:5]})
+    except Exception as e:
+        wit.append({'key': key, 'problems': [f'auto-design did not complete: {type(e).__name__}: {e}'[:300]]})
 finish('designed network is a complete line system' + (' with closed power budget' if POWERS else ''), 'bounded',
        'gnpy.tools.worker_utils.designed_network (build_network, add_missing_elements_in_network)',
        f'topologies {names} x spans {span_sets} km x junction none/fused/edfa x power/gain mode, default eqpt_config.json (+ Span max_length 60 / 100 km on line2, ring3; + 200 km and 40+170 km fibres with per-frequency loss and dispersion tables)',
